@@ -139,9 +139,9 @@ public:
   uint64_t DefaultRuns(const std::string& focus_, bool thorough) const override {
     (void)focus_; return thorough ? 500000 : 12000;
   }
-  Cfg GenCfg(Rng& r, const std::string& focus_, bool) override {
+  Cfg GenCfg(Rng& r, const std::string& focus_, bool thorough) override {
     Cfg c;
-    c["steps"] = r.Range(8, 45);
+    c["steps"] = thorough ? r.Range(8, 80) : r.Range(8, 45);   // thorough: longer histories
     c["docs"] = r.Range(1, 3);
     c["max_cst"] = r.Range(5, 14);
     c["uid_policy"] = r.Range(0, 4); c["uid_range"] = r.Range(8, 24);
